@@ -33,13 +33,14 @@ def replay(data):
 
 
 def check(run):
-  timeout = 300 if run.tier == 'quick' else 1200
+  timeout = 400 if run.tier == 'quick' else 2400
+  env = None if run.tier == 'quick' else {'C04_BOUNDS': '5,4,3,6'}
   run.functions += ['client_datasets.ClientDataset.shuffle_repeat_batch', 'ShuffleRepeatBatchView.__init__/__iter__']
   run.trusted += ['CrossHair "Confirmed over all paths"', 'np_lite + oracle tape: shuffle(buf) overwrites buf with the next tape segment '
                   '(contract: numpy.shuffle returns some permutation of its argument; equal seeds give equal streams)']
   run.assumptions += ['statistical quality of numpy\'s shuffle is outside the claim', 'N >= 1 (the statement excludes empty datasets)',
                       'infinite streams are cut after 3 batches']
-  run.bounds = {'N': '1..4', 'batch_size': '1..3 (4..7 with N<=3 for multi-epoch batches)', 'num_epochs': 'None,1,2', 'num_steps': 'None,0..4',
+  run.bounds = {'thorough': 'N<=5, batch<=4, epochs<=3, steps<=6', 'N': '1..4', 'batch_size': '1..3 (4..7 with N<=3 for multi-epoch batches)', 'num_epochs': 'None,1,2', 'num_steps': 'None,0..4',
                 'drop_remainder/skip_shuffle': 'both'}
   sys.path.insert(0, xh.HARNESS_DIR)
   import np_lite
@@ -50,4 +51,4 @@ def check(run):
   ok = all(h.check_srb(cdm, A, 5, b, 1, -1, d, False, None) for b in (1, 2, 3, 5, 7) for d in (False, True)) and \
       h.check_srb(cdm, A, 5, 2, 0, 4, False, True, None)
   run.witness('oracle-accepts-real-code-on-test-inputs', 'translation', ok)
-  xh.discharge(run, HARNESS, [('srb', 'prop'), ('srb_big_batch', 'prop'), ('srb_reach', 'reach')], timeout, replay_fn)
+  xh.discharge(run, HARNESS, [('srb', 'prop'), ('srb_big_batch', 'prop'), ('srb_reach', 'reach')], timeout, replay_fn, env)
